@@ -1027,3 +1027,182 @@ func c04EveryBranchEmitted(c *Ctx, rule string) {
 	}
 	c.Check(n >= 15, rule, "result-branch emissions enumerated", token.NoPos, itoa(n), "implausibly few ("+itoa(n)+")")
 }
+
+// c12SelectorLabelsConditional: the labels named by positive matchers of a
+// selector are guaranteed on the selector itself (walkNode). Anywhere further
+// out (function cases) they may be guaranteed again only if nothing in between
+// removed them: the guaranteeLabel call that takes names from
+// labelsFromSelectors is, outside walkNode, guarded by CanHaveLabel(name).
+func c12SelectorLabelsConditional(c *Ctx, rule string) {
+	p := c.P
+	up := p.Pkg("internal/parser/utils")
+	lfs := p.Func("internal/parser/utils.labelsFromSelectors")
+	gl := p.Func("internal/parser/utils.guaranteeLabel")
+	if up == nil || lfs == nil || gl == nil {
+		c.Undecided(rule, "anchor:labelsFromSelectors/guaranteeLabel", token.NoPos, "not found")
+		return
+	}
+	info := up.TypesInfo
+	n := 0
+	for _, fi := range p.AllFuncs() {
+		if fi.Pkg != up || fi.Decl.Body == nil || p.IsTestFile(fi.Decl.Pos()) || fi.Obj.Name() == "walkNode" {
+			continue
+		}
+		pm := parentMap(fi.Decl.Body)
+		// names obtained from labelsFromSelectors: the call itself, or a range variable over it
+		fromSel := func(e ast.Expr) bool {
+			found := false
+			ast.Inspect(e, func(m ast.Node) bool {
+				switch x := m.(type) {
+				case *ast.CallExpr:
+					if Callee(info, x) == lfs.Obj {
+						found = true
+					}
+				case *ast.Ident:
+					if v, ok := info.Uses[x].(*types.Var); ok {
+						ast.Inspect(fi.Decl.Body, func(k ast.Node) bool {
+							if rs, ok := k.(*ast.RangeStmt); ok {
+								if id, ok := rs.Value.(*ast.Ident); ok && info.Defs[id] == types.Object(v) {
+									if call, ok := ast.Unparen(rs.X).(*ast.CallExpr); ok && Callee(info, call) == lfs.Obj {
+										found = true
+									}
+								}
+							}
+							return true
+						})
+					}
+				}
+				return true
+			})
+			return found
+		}
+		ast.Inspect(fi.Decl.Body, func(nd ast.Node) bool {
+			call, ok := nd.(*ast.CallExpr)
+			if !ok || Callee(info, call) != gl.Obj || len(call.Args) < 2 {
+				return true
+			}
+			uses := false
+			for _, a := range call.Args[1:] {
+				if fromSel(a) {
+					uses = true
+				}
+			}
+			if !uses {
+				return true
+			}
+			n++
+			if labels, _ := contextOf(info, pm, call, fi.Decl.Body); len(labels) > 0 && strings.Contains(labels[0], "absent") {
+				// absent(m{l="v"}) creates its result's labels from the equality matchers: a stamp, not a re-guarantee
+				c.Ok(rule, fi.Obj.Name()+":selector labels are re-guaranteed only while still possible #"+itoa(n)+" (absent: stamped)", call.Pos(), "absent() builds its labels from the selector")
+				return true
+			}
+			guarded := false
+			for _, a := range lexicalGuards(pm, call, fi.Decl.Body) {
+				if g, ok := ast.Unparen(a.E).(*ast.CallExpr); ok && a.Truth && isCallTo(info, g, "internal/parser/utils.Source.CanHaveLabel") {
+					guarded = true
+				}
+			}
+			c.Check(guarded, rule, fi.Obj.Name()+":selector labels are re-guaranteed only while still possible #"+itoa(n), call.Pos(), "guarded by CanHaveLabel",
+				"labels taken from the innermost selector's matchers are marked guaranteed (and cleared from ExcludedLabels) without asking whether an aggregation or join in between removed them: `abs(sum without(a)(foo{a=…}))` is believed to carry `a`, and a join with a side that lacks `a` too is reported as dead code")
+			return true
+		})
+	}
+	c.Check(n >= 1, rule, "selector-label guarantees outside walkNode enumerated", token.NoPos, itoa(n), "none found")
+}
+
+// c12PureAnalysis: the verdicts about a query are a function of the query
+// text. Nothing reachable from parser.DecodeExpr or utils.LabelsSource writes
+// package-level state: no assignment to a package-level variable, no element
+// store into a package-level map/slice, no Store/Delete/Swap on a package-level
+// sync.Map. A memo keyed by anything but the exact text (normalised white
+// space, say) hands one rule the syntax tree of another.
+func c12PureAnalysis(c *Ctx, rule string) {
+	p := c.P
+	roots := []*FuncInfo{p.Func("internal/parser.DecodeExpr"), p.Func("internal/parser/utils.LabelsSource")}
+	seen := map[*FuncInfo]bool{}
+	var work []*FuncInfo
+	for _, r := range roots {
+		if r == nil {
+			c.Undecided(rule, "anchor:DecodeExpr/LabelsSource", token.NoPos, "not found")
+			return
+		}
+		work = append(work, r)
+	}
+	bad := ""
+	badPos := token.NoPos
+	for len(work) > 0 {
+		fi := work[len(work)-1]
+		work = work[:len(work)-1]
+		if seen[fi] || fi.Decl.Body == nil {
+			continue
+		}
+		seen[fi] = true
+		info := fi.Pkg.TypesInfo
+		isPkgVar := func(e ast.Expr) *types.Var {
+			id, ok := ast.Unparen(e).(*ast.Ident)
+			if !ok {
+				if sel, isSel := ast.Unparen(e).(*ast.SelectorExpr); isSel {
+					if _, isPkg := info.Uses[identOf(sel.X)].(*types.PkgName); isPkg {
+						id = sel.Sel
+					}
+				}
+			}
+			if id == nil {
+				return nil
+			}
+			v, ok := info.Uses[id].(*types.Var)
+			if !ok || v.IsField() || v.Pkg() == nil || v.Parent() != v.Pkg().Scope() || !strings.HasPrefix(v.Pkg().Path(), ModPath) {
+				return nil
+			}
+			return v
+		}
+		ast.Inspect(fi.Decl.Body, func(n ast.Node) bool {
+			switch x := n.(type) {
+			case *ast.AssignStmt:
+				for _, l := range x.Lhs {
+					root := l
+					for {
+						switch y := ast.Unparen(root).(type) {
+						case *ast.IndexExpr:
+							root = y.X
+							continue
+						case *ast.SelectorExpr:
+							if _, isPkg := info.Uses[identOf(y.X)].(*types.PkgName); !isPkg {
+								root = y.X
+								continue
+							}
+						}
+						break
+					}
+					if v := isPkgVar(root); v != nil {
+						bad = fi.Name + " writes " + v.Name()
+						badPos = x.Pos()
+					}
+				}
+			case *ast.CallExpr:
+				if sel, ok := x.Fun.(*ast.SelectorExpr); ok {
+					if v := isPkgVar(sel.X); v != nil {
+						switch sel.Sel.Name {
+						case "Store", "LoadOrStore", "LoadAndDelete", "Delete", "Swap", "CompareAndSwap", "CompareAndDelete", "Clear", "Add":
+							bad = fi.Name + " calls " + v.Name() + "." + sel.Sel.Name
+							badPos = x.Pos()
+						}
+					}
+				}
+				if fn := Callee(info, x); fn != nil {
+					if cf := p.FuncOf(fn); cf != nil && !seen[cf] {
+						work = append(work, cf)
+					}
+				}
+			}
+			return true
+		})
+	}
+	c.Check(bad == "", rule, "query parsing and label analysis keep no package-level state", badPos, itoa(len(seen))+" functions reachable from DecodeExpr and LabelsSource",
+		"package-level state is written on the parse/analysis path ("+bad+"): what pint concludes about one rule's query then depends on which queries were parsed before it — with a cache keyed by anything but the exact text, one rule is judged on another rule's syntax tree")
+}
+
+func identOf(e ast.Expr) *ast.Ident {
+	id, _ := ast.Unparen(e).(*ast.Ident)
+	return id
+}
